@@ -1,5 +1,10 @@
 // types of src/types.rs and src/compression.rs, extracted verbatim (T1, T2, T9)
 //@item src/compression.rs | enum CompressionMethod
+// ASSUMED (ghost): `#[derive(PartialEq)]` on CompressionMethod is structural equality
+impl vstd::std_specs::cmp::PartialEqSpecImpl for CompressionMethod {
+    open spec fn obeys_eq_spec() -> bool { true }
+    open spec fn eq_spec(&self, other: &CompressionMethod) -> bool { *self == *other }
+}
 //@item src/types.rs | enum System
 //@item src/types.rs | struct DateTime
 //@item src/types.rs | struct AtomicU64
